@@ -130,6 +130,16 @@ CHECKS["C13"] = dict(
     design="5/C13",
 )
 
+CHECKS["C14"] = dict(
+    technique="differential property test against a tree-level reference substitution: generated (pattern, replacement, source, count) cases; a parallel walk of source tree and result tree must explain every difference as a reference match replaced by the template instantiated on trees with that match's bindings",
+    text="Patterns (expression, statement, statement-sequence) derived from repository examples and directed sources are substituted with marker "
+         "templates using each wildcard 0/1/n times, or with themselves; the result tree must be the source tree with reference matches replaced "
+         "by the tree-level instantiation, the count bound and ignore comments must be respected, lines outside every match are carried over "
+         "unchanged, absent patterns leave the text byte-identical, and the replace CLI agrees with sub().",
+    note="Operator-precedence-sensitive replacements, elif matches and ';'-neighbour matches are known findings excluded by construction and counted; f-string internals are outside the domain.",
+    design="5/C14",
+)
+
 CHECKS["C11"] = dict(
     technique="round-trip property test: ast.dump (positions and Constant.kind ignored, docstrings modulo whitespace) and the multiset of literal values must be invariant under each layout stage, over generated literal-heavy sources",
     text="Literal-heavy sources, odd indentation, import blocks with interleaved literals, the zoo and repository examples go through the pre-"
